@@ -515,7 +515,7 @@ D_SPANS = ["zero", "ms3", "ms7", "subsec", "s1", "day", "monthend", "leap", "yea
 D_OPTS = ["omitted", "empty", "partial"]
 D_DIRS = ["up", "down", "left", "right"]
 D_ALGS = ["overlap", "simple", "none"]
-D_BOUNDS = ["none", "max", "zero", "maxonly"]
+D_BOUNDS = ["none", "max", "zero", "maxonly", "narrow"]
 
 
 def descriptors():
@@ -610,6 +610,9 @@ def concretise(desc, rng):
         lab = {"algorithm": desc["alg"]}
         if desc["bounds"] == "max":
             lab["maxPos"] = rng.choice([200, 360])
+        elif desc["bounds"] == "narrow":
+            lab["minPos"] = 0                                          # a band narrower than a single label
+            lab["maxPos"] = rng.choice([15, 30, 45])
         elif desc["bounds"] == "maxonly":
             lab["minPos"] = None                                       # the left wall switched off, an upper bound kept
             lab["maxPos"] = rng.choice([200, 360])
